@@ -116,7 +116,7 @@ class C20(Prop):
     harness = "h_simd.c"
     harness_flags = ["-msse4.1", "-mavx2", "-mavx512f", "-mavx512dq", "-mavx512bw"]
     theorems = ["EaselModel.Props.C20." + t for t in (
-        "sse_hmax_epu8", "sse_hmax_epi8", "sse_hmax_epi16", "avx_hmax_epu8", "avx_hmax_epi8", "avx_hmax_epi16", "avx512_hmax_epu8", "avx512_hmax_epi8", "avx512_hmax_epi16", "sse_hsum_ps", "avx_hsum_ps", "avx512_hsum_ps", "sse_hmax_ps", "sse_hmin_ps", "sse_any_gt_epu8", "sse_any_gt_epi16", "avx_any_gt_epi16", "sse_any_gt_ps", "sse_select_ps", "sse_rightshiftz_float", "sse_leftshiftz_float", "avx_rightshiftz_float", "avx_leftshiftz_float", "avx512_rightshiftz_float", "avx512_leftshiftz_float", "sse_rightshift_ps", "sse_leftshift_ps", "sse_rightshift_int8", "sse_rightshift_int16", "avx_rightshift_int8", "avx_rightshift_int16", "avx512_rightshift_int8", "avx512_rightshift_int16", "logf_negative", "logf_zero_subnormal", "logf_inf_nan", "expf_underflow", "expf_overflow", "expf_cutoffs_in_window", "expf_nan", "sum_eq_real", "dot_eq_real", "vmax_spec", "vmin_spec", "argmax_spec", "argmin_spec", "argmax_nil", "sortIncreasing_spec", "sortDecreasing_spec", "norm_of_sum_ne_zero", "norm_of_sum_zero", "entropy_eq", "cdf_spec", "validate_spec", "logSum_all_ninf", "logSum_spec", "logSum_of_max_pinf", "logNorm_spec", "relEntropyGo_spec")]
+        "sse_hmax_epu8", "sse_hmax_epi8", "sse_hmax_epi16", "avx_hmax_epu8", "avx_hmax_epi8", "avx_hmax_epi16", "avx512_hmax_epu8", "avx512_hmax_epi8", "avx512_hmax_epi16", "sse_hsum_ps", "avx_hsum_ps", "avx512_hsum_ps", "sse_hmax_ps", "sse_hmin_ps", "sse_any_gt_epu8", "sse_any_gt_epi16", "avx_any_gt_epi16", "sse_any_gt_ps", "sse_select_ps", "sse_rightshiftz_float", "sse_leftshiftz_float", "avx_rightshiftz_float", "avx_leftshiftz_float", "avx512_rightshiftz_float", "avx512_leftshiftz_float", "sse_rightshift_ps", "sse_leftshift_ps", "sse_rightshift_int8", "sse_rightshift_int16", "avx_rightshift_int8", "avx_rightshift_int16", "avx512_rightshift_int8", "avx512_rightshift_int16", "logf_negative", "logf_zero_subnormal", "logf_inf_nan", "expf_underflow", "expf_overflow", "expf_cutoffs_in_window", "expf_nan", "sum_eq_real", "dot_eq_real", "vmax_spec", "vmin_spec", "argmax_spec", "argmin_spec", "argmax_nil", "sortIncreasing_spec", "sortDecreasing_spec", "norm_of_sum_ne_zero", "norm_of_sum_zero", "entropy_eq", "cdf_spec", "validate_spec", "logSum_all_ninf", "logSum_spec", "logSum_of_max_pinf", "logNorm_spec", "relEntropyGo_spec", "isum_eq", "idot_eq")]
     claimed = True
     level_text = ("Theorems (Lean kernel): each of the 33 SSE/AVX/AVX-512 helper inlines, as regenerated from the headers of the working tree, equals the scalar "
                   "loop over its lanes for every lane pattern (hmax = fold max; any_gt = exists lane; select/shifts lane-wise with the documented fill; float "
@@ -248,6 +248,20 @@ class C20(Prop):
                 ops.append("intr f=%s w=32 a=%s b=%s" % (f, rf(nb), rf(nb)))
             ops.append("intr f=_mm_movemask_ps w=32 a=%s" % rf(16))
             ops.append("intr f=_mm_blendv_ps w=32 a=%s b=%s m=%s" % (rf(16), rf(16), rng.choice([rf(16), rb(16), hex_u32s([rng.choice([0, 0xFFFFFFFF]) for _ in range(4)])])))
+        fb = BOUNDARY["f"] + [0x4f000000, 0xcf000000, 0x4effffff, 0xcf000001, 0x4b7fffff, 0x3fc00000, 0xbfc00000, 0x3f000000, 0xbf000000, 0x3effffff,
+                              0x42b0c0a5, 0xc2b0c0a5, 0x42fe0000, 0xc2fe0000, 0x7f800001, 0xffc00000]
+        def rl():
+            return hex_u32s([rng.choice(fb) if rng.random() < 0.5 else rng.choice([rng.randrange(1 << 32), bits_of_f32(rng.uniform(-300, 300)),
+                             bits_of_f32(math.ldexp(rng.uniform(-1, 1), rng.randrange(-30, 40)))]) for _ in range(4)])
+        for _ in range(30):
+            for f in ("_mm_cvttps_epi32", "_mm_cvtepi32_ps"):
+                ops.append("lane32 f=%s a=%s" % (f, rl()))
+            for f in ("_mm_cmplt_ps", "_mm_cmpgt_ps", "_mm_cmple_ps", "_mm_cmpeq_epi32", "_mm_sub_epi32", "_mm_add_epi32", "_mm_and_ps", "_mm_or_ps",
+                      "_mm_andnot_ps", "_mm_sub_ps", "_mm_mul_ps", "_mm_add_ps"):
+                a = rl(); b = a if rng.random() < 0.15 else rl()
+                ops.append("lane32 f=%s a=%s b=%s" % (f, a, b))
+            ops.append("lane32 f=_mm_srli_epi32 imm=%d a=%s" % (rng.choice([23, 0, 1, 31, rng.randrange(32)]), rl()))
+            ops.append("lane32 f=_mm_slli_epi32 imm=%d a=%s" % (rng.choice([23, 0, 1, 31, rng.randrange(32)]), rl()))
         return [{"name": "intr%d" % i, "ops": ops[i:i + 40]} for i in range(0, len(ops), 40)]
 
     # ---- helpers
@@ -411,6 +425,7 @@ class C20(Prop):
                             elif o == "MatMax":
                                 M = rng.choice([d for d in (1, 2, 3, 4, 5, 8) if n % d == 0])
                                 ops.append("vec op=%sMatMax m=%d x=%s" % (T, M, hx(T, v)))
+                                ops.append("vec op=%sMatScale m=%d x=%s s=%s" % (T, M, hx(T, v), sb(T, rng.choice([2.0, -0.5, 3.3]))))
                             elif o.startswith("Sort") and style == "zeros": continue   # order of +0/-0 is not determined by the comparator
                             elif o.startswith("Sort") and style == "inf": ops.append("vec op=%s%s x=%s" % (T, o, hx(T, v)))
                             else: ops.append("vec op=%s%s x=%s" % (T, o, hx(T, v)))
@@ -455,6 +470,12 @@ class C20(Prop):
                             ops.append("vec op=%sLog2Norm x=%s" % (T, hx(T, lv)))
                     ops.append("vec op=%sLog x=%s" % (T, hx(T, self.rand_vec(rng, n, "prob", T))))
                     ops.append("vec op=%sExp x=%s" % (T, hx(T, self.rand_vec(rng, n, "logp", T))))
+            for n in (10000, rng.randrange(5000, 10000)):          # the top of the quantifier's length range
+                v = self.rand_vec(rng, n, rng.choice(["uni", "kahan", "ties"]), T)
+                lv = self.rand_vec(rng, n, "logp", T)
+                for o in ("Sum", "ArgMax", "Max", "SortIncreasing"): ops.append("vec op=%s%s x=%s" % (T, o, hx(T, v)))
+                ops.append("vec op=%sLogSum x=%s" % (T, hx(T, lv))); ops.append("vec op=%sLogNorm x=%s" % (T, hx(T, lv)))
+                ops.append("vec op=%sNorm x=%s" % (T, hx(T, self.rand_vec(rng, n, "prob", T))))
             ops.append("vec op=%sSum x=-" % T); ops.append("vec op=%sArgMax x=-" % T); ops.append("vec op=%sArgMin x=-" % T)
             ops.append("vec op=%sDot x=- y=-" % T); ops.append("vec op=%sNorm x=-" % T); ops.append("vec op=%sEntropy x=-" % T)
             ops.append("vec op=%sValidate x=- s=%s" % (T, sb(T, 0.1))); ops.append("vec op=%sSortIncreasing x=-" % T)
@@ -481,7 +502,7 @@ class C20(Prop):
         for c in out:
             for op in c["ops"]:
                 w = op.split()
-                key = w[0] + ":" + (w[1].split("=")[1] if len(w) > 1 and w[0] in ("simd", "intr", "vec") else "")
+                key = w[0] + ":" + (w[1].split("=")[1] if len(w) > 1 and w[0] in ("simd", "intr", "vec", "lane32") else "")
                 st[key] = st.get(key, 0) + 1
         self._dist = st
         return out
@@ -725,6 +746,9 @@ class C20(Prop):
             if a == "unsupported" or a.startswith("ok sse="): continue      # instruction set absent on this CPU: theorems + translation only
             op = case["ops"][i] if i < len(case["ops"]) else ""
             name, kvs = kv(op) if op else ("", {})
+            if name == "vec" and kvs.get("op", "  ")[1:] in ("Max", "Min", "MatMax") and kvs["op"][0] in "DF" and a.startswith("ok ") and b.startswith("ok "):
+                za = a.split()[1].lstrip("0") in ("", "8" + "0" * (len(a.split()[1]) - 1)); zb = b.split()[1].lstrip("0") in ("", "8" + "0" * (len(b.split()[1]) - 1))
+                if za and zb: continue                     # +0 vs -0: both are the extremum
             # a float routine whose result still meets its (tight) specification is not a divergence of the property
             if name == "vec" and kvs.get("op", "  ")[1:] in self.SPEC_OPS and a.startswith("ok") and kvs["op"][0] in "DF":
                 try:
